@@ -83,6 +83,7 @@ Definition session_eqb (a b : session) : bool :=
 Definition subject_eqb (a b : subject) : bool :=
   match a, b with
   | SubjToken e x, SubjToken f y => str_eqb e f && str_eqb x y
+  | SubjPair e x u, SubjPair f y v => str_eqb e f && str_eqb x y && str_eqb u v
   | SubjGroups e m g, SubjGroups f n h => str_eqb e f && str_eqb m n && strs_eqb g h
   | _, _ => false
   end.
@@ -208,27 +209,6 @@ Definition subject_clause (tr : list wevent) (t : tid) : bool :=
       end
   | None => false
   end.
-Definition guard_clause (tr : list wevent) (t : tid) : bool :=
-  match spec_leader (map erase tr) t with
-  | Some l =>
-      match question_of tr t, question_of tr l with
-      | Some q, Some ql => guard q && guard ql
-      | _, _ => true
-      end
-  | None => true
-  end.
-(* the caller and the caller whose execution it shares passed the same allowed groups (in a
-   deployment: always, a wrapper object serves one upstream) *)
-Definition allowed_clause (tr : list wevent) (t : tid) : bool :=
-  match spec_leader (map erase tr) t with
-  | Some l =>
-      match question_of tr t, question_of tr l with
-      | Some q, Some ql => strs_eqb (allowed_of q) (allowed_of ql)
-      | _, _ => true
-      end
-  | None => true
-  end.
-
 (* property clause: a caller whose call was merged ends up with the same session updates as the
    caller whose call ran — i.e. the update the execution made is visible in EVERY sharer's record *)
 Definition session_clause (tr : list wevent) (t : tid) (after : option session) : bool :=
@@ -258,10 +238,21 @@ Definition has_session_question (tr : list wevent) (t : tid) : bool :=
   | None => false
   end.
 
-(* every failing clause of caller t carries the signature of a listed finding *)
+(* every failing clause of caller t carries the signature of a listed (open) finding: only the
+   session clause of a merged follower can (C16-K1). The subject clause has no open finding since
+   the keys were repaired (C16-K2, C16-K3 fixed): it must hold. *)
 Definition clause_failures_explained (tr : list wevent) (t : tid) (after : option session) : bool :=
-  (subject_clause tr t || negb (guard_clause tr t) || negb (allowed_clause tr t)) &&
+  subject_clause tr t &&
   (session_clause tr t after || (is_follower tr t && has_session_question tr t)).
+
+(* the strings of a question are byte strings *)
+Definition bytes_b (s : str) : bool := forallb (fun b => b <? 256) s.
+Definition q_bytes_b (q : question) : bool :=
+  match q with
+  | QSession _ s al => bytes_b (s_access s) && bytes_b (s_refresh_token s) && forallb bytes_b al
+  | QGroups _ email groups => bytes_b email && forallb bytes_b groups
+  | QToken _ tok => bytes_b tok
+  end.
 
 (* wrapper objects that occur, and where a caller called *)
 Fixpoint nodup_nat (l : list nat) : list nat :=
@@ -306,7 +297,7 @@ Definition judge (c : case) : N :=
                            | _ => true
                            end) tr &&
         forallb wo_returned obs && Nat.eqb stray 0 in
-      let wf := forallb (fun q => wf_question_b q && service_eqb (service_of (q_endpoint q)) svc)
+      let wf := forallb (fun q => wf_question_b q && q_bytes_b q && service_eqb (service_of (q_endpoint q)) svc)
                         (questions (map snd tr)) in
       let model_ok :=
         wf && Nat.eqb stray 0 &&
@@ -339,27 +330,19 @@ Definition judge (c : case) : N :=
                             (Some (wo_ran o, wo_res o, 0%nat)) false) obs in
       let subj_ok := forallb (fun o => subject_clause (pr o) (wo_tid o)) obs in
       let sess_ok := forallb (fun o => session_clause (pr o) (wo_tid o) (wo_sess o)) obs in
-      (* Attribution. A falsified monitor is attributed to the known findings iff EVERY failing
-         clause of EVERY caller carries the signature of a listed finding:
-           - a failing subject clause: the caller's or its leader's question violates the guard
-             (':' in the e-mail, ',' in a group name, group list [""])            -> C16-K2,
-             or the two passed different allowed groups to ONE wrapper object
-             (the key omits them)                                                  -> C16-K3;
+      (* Attribution. A falsified monitor is attributed to the one open known finding iff EVERY
+         failing clause of EVERY caller carries its signature:
            - a failing session clause: the caller is a merged follower of a session-keyed call
              (the leader's own record must satisfy the clause)                     -> C16-K1;
+           - the subject clause (sharers asked the same method about the same subject and the
+             same allowed groups) has no open finding since the keys were repaired
+             (C16-K2, C16-K3: fixed) — a merge of different subjects is a VIOLATION again;
            - the generic coalescing clause (who runs, results, counts, one execution per
-             (wrapper, key) at a time, nothing shared across wrapper objects) has no known
-             finding: it must hold.
-         One schedule may exhibit several findings at once; the reported code is the smallest. Any
-         failing clause without a signature leaves the case unattributed (a VIOLATION). *)
+             (wrapper, key) at a time, nothing shared across wrapper objects) never had one.
+         Any failing clause without a signature leaves the case unattributed (a VIOLATION). *)
       let explained := forallb (fun o => clause_failures_explained (pr o) (wo_tid o) (wo_sess o)) obs in
       let known : N :=
-        if gen_ok && explained then
-          (if negb sess_ok then 1           (* C16-K1: merged caller's record stale *)
-           else if existsb (fun o => negb (subject_clause (pr o) (wo_tid o)) && negb (guard_clause (pr o) (wo_tid o))) obs
-                then 2                      (* C16-K2: ':' / ',' key collision *)
-           else if negb subj_ok then 3      (* C16-K3: allowed groups not in the key *)
-           else 0)
+        if gen_ok && explained && negb sess_ok then 1   (* C16-K1: merged caller's record stale *)
         else 0 in
       code (negb model_ok) (gen_ok && subj_ok && sess_ok) known
   | CStorm max_overlap execs obs =>
